@@ -245,6 +245,9 @@ type HStep struct {
 	Op    string `json:"op"` // txn noop-upd noop-txn refresh reopen
 	Stmts []Stmt `json:"stmts,omitempty"`
 	Auto  bool   `json:"auto,omitempty"` // single statement in autocommit mode
+	// FailAt > 0: the explicit transaction's COMMIT runs with every mutating request from the
+	// FailAt-th on failing (a storage fault during the upload); the history then goes on
+	FailAt int `json:"fail_at,omitempty"`
 }
 
 type C16Case struct {
@@ -287,6 +290,7 @@ func genC16Case(t *rapid.T) C16Case {
 		c.Steps = append(c.Steps, HStep{Op: "txn", Stmts: []Stmt{s}, Auto: true})
 	}
 	n := rapid.IntRange(1, 25).Draw(t, "nsteps")
+	faulted := false
 	for i := 0; i < n; i++ {
 		switch rapid.IntRange(0, 11).Draw(t, "op") {
 		case 0:
@@ -300,6 +304,10 @@ func genC16Case(t *rapid.T) C16Case {
 		default:
 			k := rapid.IntRange(1, 4).Draw(t, "nstmts")
 			st := HStep{Op: "txn", Auto: k == 1 && rapid.Bool().Draw(t, "auto")}
+			if !st.Auto && !faulted && rapid.IntRange(0, 5).Draw(t, "faulty") == 0 {
+				st.FailAt = rapid.IntRange(1, 8).Draw(t, "failat")
+				faulted = true // one per history (a second rollback on the same handle is K4 territory)
+			}
 			for j := 0; j < k; j++ {
 				st.Stmts = append(st.Stmts, genStmt(t, cfg, "s"))
 			}
@@ -429,7 +437,13 @@ func runC16(c C16Case, o *Obs) error {
 		return nil
 	}
 
+	// a commit whose retirement of its parents was cut short by a fault leaves two current
+	// versions; the next open legitimately merges and commits them
+	frontierBefore := 0
 	noPuts := func(what string, from int) error {
+		if frontierBefore > 1 && (strings.HasPrefix(what, "refreshing") || strings.HasPrefix(what, "re-opening")) {
+			return nil
+		}
 		if p := putsIn(store.LogSince(from)); len(p) > 0 {
 			return fmt.Errorf("%s changed nothing but wrote to the bucket: %v", what, p)
 		}
@@ -439,6 +453,7 @@ func runC16(c C16Case, o *Obs) error {
 	for i, step := range c.Steps {
 		where := fmt.Sprintf("step %d (%s)", i, step.Op)
 		from := store.LogLen()
+		frontierBefore = len(currentVersions(store, prefix))
 		verBefore, _ := conn.Version(tn)
 		switch step.Op {
 		case "txn":
@@ -448,6 +463,7 @@ func runC16(c C16Case, o *Obs) error {
 				}
 			}
 			failed := false
+			preTxn := view.Clone()
 			for _, s := range step.Stmts {
 				outcome, added, _ := view.Exec(s, wideCols)
 				if outcome != "ok" && len(s.Keys) > 1 {
@@ -474,7 +490,31 @@ func runC16(c C16Case, o *Obs) error {
 					return fmt.Errorf("%s: %s: outcome %s (%v), model expects %s", where, s, cls, err, outcome)
 				}
 			}
-			if !step.Auto {
+			if !step.Auto && step.FailAt > 0 {
+				count := 0
+				store.Intercept = func(q *fakes3.Req) error {
+					if q.Client != "verif://w" || !q.Mutating() {
+						return nil
+					}
+					count++
+					if count >= step.FailAt {
+						return fakes3.ErrInjected
+					}
+					return nil
+				}
+				err := conn.Exec("commit")
+				store.Intercept = nil
+				if err != nil {
+					// the commit was not acknowledged: nothing of it may be visible or stored,
+					// and everything committed afterwards must again be complete on its own
+					o.Class("commit-failed-by-storage-fault")
+					view = preTxn
+					if e := conn.Exec("rollback"); e != nil && !strings.Contains(e.Error(), "no transaction") {
+						return fmt.Errorf("%s: rollback after failed commit: %v", where, e)
+					}
+					continue
+				}
+			} else if !step.Auto {
 				if err := conn.Exec("commit"); err != nil {
 					return fmt.Errorf("%s: commit: %v", where, err)
 				}
